@@ -348,3 +348,170 @@ Theorem run_at_states_last mi d ip s :
 Proof. unfold run_at_states. cbn [run_at]. unfold run_loop. apply loop_states_last. Qed.
 
 End VmRun.
+
+(* ------------------------------------------------------------------ *)
+(* "keyed by value": the key test on the key domain is equality of values *)
+(* ------------------------------------------------------------------ *)
+(* the value a key stands for: nil, an integer, the bit pattern of a real, the text of a string, handle and
+   arity of a function, the handle of a native function; closures and upvalue cells are their own identity *)
+Inductive keyval :=
+| KNil | KInt (z : Z) | KReal (bits : N) | KStr (s : list N) | KFun (h arity : N) | KNative (h : N)
+| KIdent (a : N) | KNone.
+
+Definition key_value (h : heap) (k : value) : keyval :=
+  match k with
+  | VNil => KNil
+  | VInt z => KInt z
+  | VReal r => KReal r
+  | VObj a =>
+      match hget h a with
+      | Some (OStr s) => KStr s
+      | Some (OFun f ar) => KFun f ar
+      | Some (ONative f) => KNative f
+      | Some (OClo _ _ _) | Some (OUp _) => KIdent a
+      | Some (OTable _) | None => KNone
+      end
+  end.
+
+Lemma bytes_eqb_true : forall a b, bytes_eqb a b = true -> a = b.
+Proof.
+  induction a as [|x a IH]; intros [|y b] H; cbn [bytes_eqb] in H; try discriminate; [reflexivity|].
+  apply andb_true_iff in H. destruct H as (H1 & H2). apply N.eqb_eq in H1. rewrite (IH b H2), H1. reflexivity.
+Qed.
+
+Lemma kb_is_value_equality F h a b : vkey F h a -> vkey F h b ->
+  (kb (veq0 F h) a b = true <-> key_value h a = key_value h b).
+Proof.
+  intros Ha Hb. unfold kb.
+  destruct a as [|x|x|x], b as [|y|y|y]; cbn [keq key_value]; rewrite ?veq0_unfold; generalize 23; intros fu; cbn [veq];
+    try (split; [discriminate | intros E; discriminate E]); try (split; reflexivity);
+    try (cbn [vkey] in Ha, Hb;
+         match goal with |- context [hget h ?z] =>
+           destruct (hget h z) as [[]|]; try contradiction; split; intros E; discriminate E end).
+  - destruct (Z.eqb_spec x y) as [->|Hne]; split; intros E; try reflexivity; try discriminate. congruence.
+  - destruct (N.eqb_spec x y) as [->|Hne].
+    + cbn [vkey] in Ha. rewrite Ha. split; reflexivity.
+    + split; [discriminate | intros E; congruence].
+  - cbn [vkey] in Ha, Hb.
+    destruct (hget h x) as [[t1|s1|f1 a1|f1|f1 a1 u1|u1]|] eqn:E1; try contradiction;
+    destruct (hget h y) as [[t2|s2|f2 a2|f2|f2 a2 u2|u2]|] eqn:E2; try contradiction;
+      try (split; [discriminate | intros E; discriminate E]).
+    + split; intros E.
+      * destruct (bytes_eqb s1 s2) eqn:B; [|discriminate]. apply bytes_eqb_true in B. congruence.
+      * inversion E; subst. rewrite bytes_eqb_refl. reflexivity.
+    + split; intros E.
+      * destruct (N.eqb_spec f1 f2) as [->|]; [|discriminate]. destruct (N.eqb_spec a1 a2) as [->|]; [|discriminate].
+        reflexivity.
+      * inversion E; subst. rewrite !N.eqb_refl. reflexivity.
+    + split; intros E.
+      * destruct (N.eqb_spec f1 f2) as [->|]; [|discriminate]. reflexivity.
+      * inversion E; subst. rewrite N.eqb_refl. reflexivity.
+    + split; intros E.
+      * destruct (N.eqb_spec x y) as [->|]; [|discriminate]. reflexivity.
+      * inversion E; subst. rewrite N.eqb_refl. reflexivity.
+    + split; intros E; [discriminate|]. inversion E; subst. rewrite E1 in E2. discriminate.
+    + split; intros E; [discriminate|]. inversion E; subst. rewrite E1 in E2. discriminate.
+    + split; intros E.
+      * destruct (N.eqb_spec x y) as [->|]; [|discriminate]. reflexivity.
+      * inversion E; subst. rewrite N.eqb_refl. reflexivity.
+Qed.
+
+(* ------------------------------------------------------------------ *)
+(* what the invariant means for a user of a table                      *)
+(* ------------------------------------------------------------------ *)
+Section UserView.
+Variable eq : eqfun.
+Variable D : value -> Prop.
+Hypothesis kb_refl : forall a, D a -> kb eq a a = true.
+(* the key test relates two keys of the domain that match a common third one *)
+Hypothesis kb_eucl : forall a b c, D a -> D b -> D c -> kb eq a c = true -> kb eq b c = true -> kb eq a b = true.
+
+Lemma kdistinct_NoDup l : Forall D l -> kdistinct eq l -> NoDup l.
+Proof.
+  induction l as [|k l IH]; intros HD Hn; [constructor|]. cbn [kdistinct] in Hn. destruct Hn as (H1 & H2).
+  inversion HD as [|? ? Dk Dl]; subst. constructor; [|apply IH; assumption].
+  intros Hin. rewrite Forall_forall in H1. specialize (H1 k Hin). rewrite (kb_refl k Dk) in H1. discriminate H1.
+Qed.
+
+Lemma al_get_equal_key m k v k2 :
+  Forall D (map fst m) -> kdistinct eq (map fst m) -> In (k, v) m -> D k2 -> kb eq k k2 = true ->
+  al_get eq k2 m = Some v.
+Proof.
+  intros HD Hn Hin Dk2 Hk. induction m as [|[k' v'] m IH]; [contradiction|].
+  cbn [map fst kdistinct al_get] in *. destruct Hn as (H1 & H2). inversion HD as [|? ? Dk' Dm]; subst.
+  destruct Hin as [E|Hin].
+  - inversion E; subst. rewrite Hk. reflexivity.
+  - assert (Dk : D k). { rewrite Forall_forall in Dm. apply Dm. apply (in_map fst) in Hin. exact Hin. }
+    destruct (kb eq k' k2) eqn:E; [|apply IH; assumption].
+    exfalso. pose proof (kb_eucl k' k k2 Dk' Dk Dk2 E Hk) as C.
+    rewrite Forall_forall in H1. rewrite (H1 k) in C; [discriminate|]. apply (in_map fst) in Hin. exact Hin.
+Qed.
+
+Lemma al_get_no_key m k2 : (forall k, In k (map fst m) -> kb eq k k2 = false) -> al_get eq k2 m = None.
+Proof.
+  induction m as [|[k' v'] m IH]; intros H; cbn [al_get]; [reflexivity|]. cbn [map fst] in H.
+  rewrite (H k' (or_introl Logic.eq_refl)). apply IH. intros k Hk. apply H. right. exact Hk.
+Qed.
+End UserView.
+
+Section VmUserView.
+Variable F : fops.
+
+(* a table that satisfies the invariant, as its user sees it: iteration yields the entries [tabs t] - one per
+   key of the key vector, in the order of the key vector, every key once (as a value: no two keys of the table
+   have the same [key_value]) -, a read through ANY key with the value of a stored key returns the value stored
+   under it, a read through a key with another value returns nothing *)
+Theorem twf_user_view h t : twf (veq0 F h) (vkey F h) t ->
+  titer (veq0 F h) t = Some (tabs t) /\
+  map fst (tabs t) = tkeys t /\
+  NoDup (map (key_value h) (tkeys t)) /\
+  (forall k v k2, In (k, v) (tabs t) -> vkey F h k2 -> key_value h k2 = key_value h k ->
+                  tget (veq0 F h) t k2 = Some (Some v)) /\
+  (forall k2, vkey F h k2 -> ~ In (key_value h k2) (map (key_value h) (tkeys t)) ->
+              tget (veq0 F h) t k2 = Some None).
+Proof.
+  intros W. assert (W' := W). destruct W' as (Ha & Hd & Hn).
+  assert (Heucl : forall a b c, vkey F h a -> vkey F h b -> vkey F h c ->
+            kb (veq0 F h) a c = true -> kb (veq0 F h) b c = true -> kb (veq0 F h) a b = true).
+  { intros a b c Da Db Dc H1 H2. apply (kb_is_value_equality F h) in H1; auto.
+    apply (kb_is_value_equality F h) in H2; auto. apply (kb_is_value_equality F h); auto. congruence. }
+  split; [exact (@titer_spec (veq0 F h) (vkey F h) (veq0_total F h) (veq0_refl F h) t W)|]. split; [exact Ha|]. split; [|split].
+  - clear Ha W. induction (tkeys t) as [|k l IH]; cbn [map]; [constructor|].
+    cbn [kdistinct] in Hn. destruct Hn as (H1 & H2). inversion Hd as [|? ? Dk Dl]; subst.
+    constructor; [|apply IH; assumption]. intros Hin. apply in_map_iff in Hin. destruct Hin as (k' & E & Hk').
+    rewrite Forall_forall in H1, Dl. specialize (H1 k' Hk').
+    assert (C : kb (veq0 F h) k k' = true) by (apply kb_is_value_equality; auto).
+    rewrite C in H1. discriminate.
+  - intros k v k2 Hin Dk2 E. rewrite (@tget_spec (veq0 F h) (vkey F h) (veq0_total F h) t k2 W Dk2). f_equal.
+    assert (Dk : vkey F h k).
+    { rewrite <- Ha in Hd. rewrite Forall_forall in Hd. apply Hd. apply (in_map fst) in Hin. exact Hin. }
+    apply (al_get_equal_key (veq0 F h) (vkey F h) Heucl (tabs t) k v k2); auto.
+    + unfold tabs. rewrite Ha. exact Hd.
+    + unfold tabs. rewrite Ha. exact Hn.
+    + apply kb_is_value_equality; auto.
+  - intros k2 Dk2 Hno. rewrite (@tget_spec (veq0 F h) (vkey F h) (veq0_total F h) t k2 W Dk2). f_equal.
+    apply al_get_no_key. intros k Hk. unfold tabs in Hk. rewrite Ha in Hk.
+    destruct (kb (veq0 F h) k k2) eqn:E; [|reflexivity]. exfalso. apply Hno.
+    rewrite Forall_forall in Hd. apply kb_is_value_equality in E; auto. rewrite <- E. apply in_map. exact Hk.
+Qed.
+
+(* the final state of any run from a new VM (any bytecode, budget, build) on which no SetProperty had a key
+   outside the key domain: every table object of the heap is such a table *)
+Theorem run_fresh_tables_user_view : forall bld P budget,
+  fst (run_k F bld P budget fresh_state) <> OAbort AUnmodelled ->
+  let h := st_heap (snd (run F bld budget P fresh_state)) in
+  forall a t, hget h a = Some (OTable t) ->
+    titer (veq0 F h) t = Some (tabs t) /\
+    map fst (tabs t) = tkeys t /\
+    NoDup (map (key_value h) (tkeys t)) /\
+    (forall k v k2, In (k, v) (tabs t) -> vkey F h k2 -> key_value h k2 = key_value h k ->
+                    tget (veq0 F h) t k2 = Some (Some v)) /\
+    (forall k2, vkey F h k2 -> ~ In (key_value h k2) (map (key_value h) (tkeys t)) ->
+                tget (veq0 F h) t k2 = Some None).
+Proof.
+  intros bld P budget HU h a t Ha.
+  destruct (run_tables_wf F bld P budget fresh_state (vm_tables_wf_initial F) HU) as (_ & W & _).
+  apply twf_user_view. exact (W a t Ha).
+Qed.
+
+End VmUserView.
